@@ -17,7 +17,7 @@ RULE = ('FeatureTransformerGeneric.construct_new_features on every column of len
         'by {g, g-1e-9, g+1e-9} (every where(X<g)/where(X>g) boundary hit exactly and from both sides), for the minimal, default and fw-transformers '
         'presets, every emitted/dropped column judged against an independent scalar formula table keyed by the transformer NAME; one probe column per fw '
         'family containing all thresholds and their neighbours; keep/drop rule on all multisets of length 4..8 (two row orders); every list of <= 3 '
-        'preset names (with repetition, every order); sequence differential over <= 3 successive constructor+transform calls with different presets. distinct_nontrivial = distinct (column, transformer) pairs whose reference output has >= 2 distinct values')
+        'preset names (with repetition, every order); sequence differential over <= 3 successive constructor+transform calls with different presets; one transformer object reused on every ordered triple of 5 frames vs a fresh object. distinct_nontrivial = distinct (column, transformer) pairs whose reference output has >= 2 distinct values')
 ASSUMPTIONS = ['numeric agreement rtol 1e-9 after parsing the emitted text back to float; NaN == NaN, inf == inf',
                'keep/drop decisions where value-based and text-based distinctness disagree (0.0 vs -0.0) or reference values differ by < 1e-9 relative are classified ambiguous and not judged']
 
@@ -337,8 +337,50 @@ def _seqdiff(_):
     return st
 
 
+REUSE_COLS = [('1', '2', '4', '0.5'), ('', '"3"', '9', '0.02'), ('5', '6', '1', '0.16'), ('2', '2', '3', '1'), ('1', '2', '4', '0.5')]
+
+
+def _reuse_job(_):
+    """one transformer object applied to successive frames (non-initial object state): each result must equal that of a fresh object"""
+    import pandas as pd
+    from outrank.feature_transformations.ranking_transformers import FeatureTransformerGeneric
+    st = Stats()
+
+    def frame(cells):
+        return pd.DataFrame({'n': list(cells), 'label': ['0'] * len(cells)})
+
+    def obs(df):
+        return {str(c): [str(v) for v in df[c].tolist()] for c in df.columns}
+
+    for preset in ('minimal', 'default', 'fw-transformers'):
+        for seq in itertools.permutations(range(len(REUSE_COLS)), 3):
+            with warnings.catch_warnings():
+                warnings.simplefilter('ignore')
+                with np.errstate(all='ignore'):
+                    tr = FeatureTransformerGeneric({'n'}, preset=preset)
+                    for pos, i in enumerate(seq):
+                        ok, out = safe(tr.construct_new_features, frame(REUSE_COLS[i]))
+                        fresh = FeatureTransformerGeneric({'n'}, preset=preset).construct_new_features(frame(REUSE_COLS[i]))
+                        st.count('evaluations')
+                        st.count('reuse_calls')
+                        if pos:
+                            st.count('nontrivial')
+                        case = {'kind': 'reuse', 'preset': preset, 'seq': list(seq)}
+                        if not ok:
+                            st.violation(case, f'call {pos + 1} on a reused transformer raised {out}', {'kind': 'reuse_exception'})
+                            break
+                        if obs(out) != obs(fresh):
+                            bad = [c for c in obs(fresh) if obs(out).get(c) != obs(fresh)[c]][:2]
+                            st.violation(case, f'call {pos + 1} of {list(seq)} on a reused {preset} transformer differs from a fresh transformer in columns {bad}: {[obs(out).get(c) for c in bad]} vs {[obs(fresh)[c] for c in bad]}',
+                                         {'kind': 'reuse_differs'})
+                            break
+    return st
+
+
 def _dispatch(item):
     k, job = item
+    if k == 'reuse':
+        return _reuse_job(job)
     if k == 'seqdiff':
         return _seqdiff(job)
     return {'cols': _cols_job, 'probe': _probe_job, 'rule': _rule_job, 'presets': _presets_job}[k](job)
@@ -363,6 +405,7 @@ def run(ctx):
     jobs += [('rule', (lo, min(nms, lo + 60))) for lo in range(0, nms, 60)]
     jobs.append(('presets', None))
     jobs.append(('seqdiff', None))
+    jobs.append(('reuse', None))
     for st in pmap(_dispatch, jobs):
         ctx.stats.merge(st)
     ctx.extra['fw_column_length'] = maxlen
@@ -375,6 +418,8 @@ def eval_case(case):
     st = Stats()
     if case['kind'] == 'seqdiff':
         return seqdiff.replay(seq_call, SEQ_MENU, case['seq'])
+    if case['kind'] == 'reuse':
+        return [v['what'] for v in _reuse_job(None).violations]
     if case['kind'] == 'preset':
         from outrank.feature_transformations import feature_transformer_vault as vault
         from outrank.feature_transformations.ranking_transformers import FeatureTransformerGeneric
